@@ -201,6 +201,15 @@ theorem C20_fmtF5_exact (v : ℚ) :
       |(roundF5 v).val - v| ≤ 1 / 2 * (10 : ℚ) ^ (-5 : ℤ) :=
   ⟨tokOk_renderF5 _, parseNum_renderF5 _ (roundF5_spec v).1, (roundF5_spec v).2⟩
 
+/-- **C20 (the driver's parser extends the proved one).** The correspondence driver reads numbers with
+    `parsePy` (Python's full `float()` token grammar: underscores between digits, `inf`, `nan`) and flags
+    with `parseInt` (underscore-tolerant).  On every token without an underscore — in particular on
+    everything `fmtE3`, `fmtF5`, `fmtD` write — they are `parseNum` and `parseIntPlain`, the functions the
+    exactness theorems are about. -/
+theorem C20_parsePy_extends (s : Str) (hus : '_' ∉ s) :
+    (∀ q, parseNum s = some q → parsePy s = some (.fin q)) ∧ parseInt s = parseIntPlain s :=
+  ⟨fun q h => parsePy_of_parseNum s q hus h, parseInt_of_plain s hus⟩
+
 /-- **C20 (round trip to the printed precision).** With the executable formatters and parser:
     `from_ascii(to_ascii(s))` has the same name and flags, coordinates within `½·10⁻⁵`, and every flux
     and error within half a unit of its fourth significant digit. -/
@@ -289,5 +298,14 @@ example : fmtE3 (12345 / 10000) = "1.234e+00".toList ∧ fmtE3 (12355 / 10000) =
     fmtE3 0 = "0.000e+00".toList ∧ fmtE3 (5629218059236409 / 562949953421312) = "9.999e+00".toList ∧
     fmtE3 (1 / 10 ^ 30) = "1.000e-30".toList ∧ fmtF5 (-9 / 4) = "-2.25000".toList ∧
     fmtF5 (-1 / 10 ^ 9) = "-0.00000".toList := by decide +kernel
+
+/-- the spellings Python's `float()` / `int()` accept beyond plain decimals, and some they reject -/
+example :
+    parsePy "1_0".toList = some (.fin 10) ∧ parsePy "1_0.5e1_0".toList = some (.fin 105000000000) ∧
+    parsePy "-Inf".toList = some .ninf ∧ parsePy "infinity".toList = some .pinf ∧
+    parsePy "+NaN".toList = some .nan ∧ parsePy "1__0".toList = none ∧ parsePy "_1".toList = none ∧
+    parsePy "1_".toList = none ∧ parsePy "1_.5".toList = none ∧ parsePy "+-999".toList = none ∧
+    parseInt "01".toList = some 1 ∧ parseInt "+1".toList = some 1 ∧ parseInt "1_0".toList = some 10 ∧
+    parseInt "1.0".toList = none ∧ parseInt "-0".toList = some 0 := by decide +kernel
 
 end SF
